@@ -276,7 +276,8 @@ def run_reencode(tier, acc):
             for tag in (snmp.PDU_RESPONSE, snmp.PDU_TRAP, snmp.PDU_GET):
                 if tag != snmp.PDU_RESPONSE and i % 9:
                     continue
-                node = snmp.pdu_node(tag, 1000 + i, 0, 0, [(OID, v), (OID[:-1] + (5,), ("int", i))])
+                ei = (0, 1, 127, 128, 2**31 - 1, -1)[i % 6]
+                node = snmp.pdu_node(tag, 1000 + i, 0, ei, [(OID, v), (OID[:-1] + (5,), ("int", i))])
                 if form:
                     apply_form_everywhere(node, form)
                 raw = node.encode()
@@ -289,7 +290,32 @@ def run_reencode(tier, acc):
                     facts = {"object": "PDU", "value": v if not isinstance(v[1], bytes) or len(v[1]) < 40 else (v[0], len(v[1])), "form": form}
                     acc.violation({"kind": "well-formed-pdu-not-decodable", "detail": {**facts, "exception": repr(exc)[:200]}, "facts": facts, "case": {"reencode": "PDU"}})
                     continue
-                check("PDU", raw, again, {"value": v if not isinstance(v[1], bytes) or len(v[1]) < 40 else (v[0], len(v[1])), "form": form, "tag": tag})
+                vdesc = v if not isinstance(v[1], bytes) or len(v[1]) < 40 else (v[0], len(v[1]))
+                check("PDU", raw, again, {"value": vdesc, "form": form, "tag": tag})
+                # the decoded content put into a new PDU object and encoded
+                # (this re-encodes every field and value from its Python value)
+                try:
+                    if v[0] in ("nso", "nsi", "eomv"):
+                        # the client library has no encoder for the exception
+                        # markers (only agents send them): not judged
+                        raise LookupError
+                    rebuilt = bytes(type(obj)(obj.value))
+                    check("PDU rebuilt from its decoded content", raw, rebuilt, {"value": vdesc, "form": form, "tag": tag, "error_index": ei})
+                except LookupError:
+                    pass
+                except Exception as exc:  # noqa
+                    facts = {"object": "PDU rebuilt from its decoded content", "value": vdesc, "form": form}
+                    acc.violation({"kind": "decoded-pdu-cannot-be-encoded-again", "detail": {**facts, "exception": repr(exc)[:200]}, "facts": facts, "case": {"reencode": "PDU"}})
+                if form == 0 and tag == snmp.PDU_RESPONSE:
+                    first = obj.value.varbinds[0].value
+                    for other_kind in ("null", "nso", "nsi", "eomv"):
+                        if other_kind == v[0]:
+                            continue
+                        other, _ = decode(ber.enc_value(other_kind, None))
+                        acc.count(evaluations=1, nontrivial=1)
+                        if first == other or other == first:
+                            facts = {"object": "value", "value": vdesc, "equals": other_kind}
+                            acc.violation({"kind": "values-of-different-types-compare-equal", "detail": facts, "facts": facts, "case": {"reencode": "equality"}})
                 if i % 5 == 0:
                     sc = snmp.scoped_pdu_node(b"\x80\x00\x1f\x88\x04eng", b"ctx" * (i % 50), node)
                     sraw = sc.encode()
